@@ -3,6 +3,7 @@ package scen
 import (
 	"encoding/binary"
 	"fmt"
+	"strings"
 	"time"
 )
 
@@ -156,6 +157,12 @@ func AnswerRounds(s Source, steps []Step, callers []CallSpec, errEvery int) ([]S
 					feats[[]string{"gzip:default", "gzip:flushed-in-between", "gzip:stored", "gzip:huffman-only", "gzip:best"}[it.GzipStyle]]++
 				}
 				feats[kinds[tg]+":"+form]++
+				if EmptyVector(tg) && strings.HasPrefix(kinds[tg], "vec") && it.ErrCode == 0 {
+					feats["vector-result-without-items"]++
+					if !it.Gzip {
+						feats["vector-result-without-items:not-packed"]++
+					}
+				}
 				if bigResult(tg) && (kinds[tg] == "object" || kinds[tg] == "veclong") && it.ErrCode == 0 {
 					feats["big-result"]++
 					if hugeResult(tg) && kinds[tg] == "object" {
@@ -196,3 +203,6 @@ func FindReq(callers []CallSpec, tag int) (ReqSpec, bool) {
 	}
 	return ReqSpec{}, false
 }
+
+// EmptyVector: the answer to a vector-declaring request with this tag has no items.
+func EmptyVector(tag int) bool { return emptyVector(tag) }
